@@ -90,13 +90,15 @@ def mean_pre(cxx):
 
 
 def mean_targets(tier):
+    """quick: int16 (a narrow type: the seeded accumulate-in-the-sample-type change overflows) and double; the other sample types thorough"""
     out = []
     for tag, cxx, cty in ELEMS:
+        if tag not in ('i16', 'f64') and tier != 'thorough':
+            continue
         out.append(Target(f'mean_{tag}', (lambda cxx=cxx: list(mean_fns(cxx))), 'specs/C20/mean.h', enforce='hist_mean',
                           pre=mean_pre(cxx), defines=elem_defines(tag, cty)))
-        if tag in ('i8', 'f64') or tier == 'thorough':
-            out.append(Target(f'mean_op_{tag}', (lambda cxx=cxx: [mean_fns(cxx)[1]]), 'specs/C20/mean.h', enforce='mean_op',
-                              pre=mean_pre(cxx), defines=elem_defines(tag, cty)))
+        out.append(Target(f'mean_op_{tag}', (lambda cxx=cxx: [mean_fns(cxx)[1]]), 'specs/C20/mean.h', enforce='mean_op',
+                          pre=mean_pre(cxx), defines=elem_defines(tag, cty)))
     return out
 
 
@@ -122,7 +124,7 @@ def ctor_targets(tier, update_fns):
     """update_fns(cxx) -> [histogram_update Fn, update_op Fn]: the callee whose contract replaces the call"""
     out = []
     for tag, cxx, cty in ELEMS:
-        if tag in ('i8', 'i16') and tier != 'thorough':       # (byte-sized elements cost CBMC 3-5x more)
+        if tag != 'i32' and tier != 'thorough':       # quick: one narrow integer type (byte-sized elements cost CBMC 3-5x more)
             continue
         out.append(Target(f'ctor_{tag}', (lambda tag=tag, cxx=cxx: [ctor_fn(tag, cxx)] + update_fns(cxx)), 'specs/C20/ctor.h', enforce='hist_ctor',
                           replace=['histogram_update'], defines=elem_defines(tag, cty)))
